@@ -12,6 +12,10 @@
 //   mode 1: n[1] = alphabet id, n[2] = number B of free trailing operations (+100: interior no-ops pruned), n[3..] = prefix operations; the
 //           case stands for ALL histories prefix + (B operations from the alphabet) - used by the exhaustive
 //           enumerator as journal/replay unit.
+//   mode 2: n[1] = N, n[2] = seed, n[3] = drain_to: a large-population history derived from these three numbers (replay_bulk): N distinct
+//           keys inserted into one container (with touches, re-inserts and a few erases in between), a drain by evict_object() down
+//           to drain_to entries (touches / inserts / erases every 16th step), a short tail and a final drain - every eviction and peek
+//           compared with the model
 // packed operation (decimal digits, most significant first):  value | arg(2) | key%100(2) | (key/100)*4+flag*2+inst(1) | code(2)
 // keys are 0..199. arg 0..79 is the size itself; arg 80.. selects an extreme size from kBigSizes (size_t operations) /
 // kBigTouch (the ssize_t new_size of touch) - see size_of_arg / touch_of_arg.
@@ -23,6 +27,7 @@
 #include <memory>
 #include <string>
 #include <string_view>
+#include <unordered_map>
 
 #include <phosg/LRUMap.hh>
 #include <phosg/LRUSet.hh>
@@ -55,12 +60,21 @@ enum Code : unsigned {
   AT_CONST = 17, // map: at(k) const                           [only in the gated build]
   INSERT_CREF_DEF = 18, // map: insert(const K&, const V&)            [only in the gated build]
   EMPTY = 19, // map: empty()
-  NUM_CODES = 20
+  // Arguments that refer INTO the container (all parameters are references): the stored value of the same key or of another key as the
+  // value of an insert, the stored key object itself as the key of insert / erase / touch. When the entry referred to is absent the
+  // operation falls back to the plain form with a fresh argument.
+  INSERT_VSELF = 20, // map: insert(k, at(k), size)  - const K&, const V& form                       [only in the gated build]
+  INSERT_VOTHER = 21, // map: insert(k, at(other), size) with other = value % 200                    [only in the gated build]
+  INSERT_KSTORED = 22, // set: insert(stored key object of k, size); map: insert(stored key object of k, v, size) [map: gated build]
+  ERASE_KSTORED = 23, // erase(stored key object of k)
+  TOUCH_KSTORED = 24, // touch(stored key object of k)
+  NUM_CODES = 25
 };
 
 static const char* kCodeNames[NUM_CODES] = {"insert", "emplace", "erase", "touch", "change_size", "evict_object", "peek", "clear", "swap",
     "at", "item_size", "at_assign", "insert_default_size", "emplace_default_size", "touch_default", "change_size_default_touch",
-    "insert_cref", "at_const", "insert_cref_default_size", "empty"};
+    "insert_cref", "at_const", "insert_cref_default_size", "empty", "insert_value=at(same key)", "insert_value=at(key value%200)", "insert_key=stored key object",
+    "erase_key=stored key object", "touch_key=stored key object"};
 
 struct Step {
   unsigned code, inst, flag, key, arg;
@@ -277,6 +291,11 @@ struct Stats {
 template <typename K>
 struct SetProbe : public phosg::LRUSet<K> {
   typedef typename phosg::LRUSet<K>::Item Item;
+  // the key object stored in the container for k (nullptr when absent)
+  const K* stored_key(const K& k) const {
+    auto f = this->items.find(k);
+    return f == this->items.end() ? nullptr : &f->first;
+  }
   // read-only structural walk: the intrusive list must be exactly the model's recency order
   void verify_links(const Model& m, const char* which, const Where& when) const {
     if (!link_walk_enabled()) return;
@@ -429,6 +448,36 @@ void replay_set(const uint64_t* ops, size_t n, Stats& st) {
           }
           break;
         }
+        case INSERT_KSTORED: {
+          size_t size = size_of_arg(s.arg);
+          const K* sk = c.stored_key(key);
+          bool r = c.insert(sk ? *sk : key, size);
+          VCHECK(r == !existed, cat("return:", C12_OP(s)), "returned ", r, " for a key that ", existed ? "existed" : "was new", " at ", when());
+          if (existed) {
+            it->size = size;
+            m.refresh(it);
+          } else {
+            m.l.push_front(Entry{s.key, 0, size});
+          }
+          break;
+        }
+        case ERASE_KSTORED: {
+          const K* sk = c.stored_key(key);
+          bool r = c.erase(sk ? *sk : key);
+          VCHECK(r == existed, "return:erase", "returned ", r, " for a key that ", existed ? "existed" : "did not exist", " at ", when());
+          if (existed) {
+            if (m.order_changed) st.nontrivial = true;
+            m.l.erase(it);
+          }
+          break;
+        }
+        case TOUCH_KSTORED: {
+          const K* sk = c.stored_key(key);
+          bool r = c.touch(sk ? *sk : key);
+          VCHECK(r == existed, "return:touch", "returned ", r, " for a key that ", existed ? "existed" : "did not exist", " at ", when());
+          if (existed) m.refresh(it);
+          break;
+        }
         case CLEAR:
           c.clear();
           m.l.clear();
@@ -481,6 +530,10 @@ void replay_set(const uint64_t* ops, size_t n, Stats& st) {
 template <typename K, typename V>
 struct MapProbe : public phosg::LRUMap<K, V> {
   typedef typename phosg::LRUMap<K, V>::Item Item;
+  const K* stored_key(const K& k) const {
+    auto f = this->items.find(k);
+    return f == this->items.end() ? nullptr : &f->first;
+  }
   void verify_links(const Model& m, const char* which, const Where& when) const {
     if (!link_walk_enabled()) return;
     size_t n = m.l.size();
@@ -691,6 +744,62 @@ void replay_map(const uint64_t* ops, size_t n, Stats& st) {
           }
           break;
         }
+        case INSERT_VSELF:
+        case INSERT_VOTHER:
+        case INSERT_KSTORED: {
+#ifdef C12_GATED
+          size_t size = size_of_arg(s.arg);
+          // the value argument: a reference to the value stored under the same key / under another key (obtained through at(), which
+          // refreshes that entry first), or a fresh local; the key argument: the stored key object or a local
+          unsigned src_key = (s.code == INSERT_VSELF) ? s.key : static_cast<unsigned>(s.value % 200);
+          const V* src = nullptr;
+          uint64_t src_value = s.value;
+          if (s.code != INSERT_KSTORED) {
+            auto sit = m.find(src_key);
+            try {
+              src = &c.at(Conv<K>::key(src_key));
+              VCHECK(sit != m.l.end(), "lookup:at-absent", "at() returned for an absent key at ", when());
+              src_value = sit->value;
+              m.refresh(sit);
+            } catch (const std::out_of_range&) {
+              VCHECK(sit == m.l.end(), "lookup:at-missing", "at() threw out_of_range for a present key at ", when());
+            }
+          }
+          const K* sk = (s.code == INSERT_KSTORED) ? c.stored_key(key) : nullptr;
+          const K& ck = sk ? *sk : key;
+          const V& cv = src ? *src : value;
+          bool r = c.insert(ck, cv, size);
+          VCHECK(r == !existed, cat("return:", C12_OP(s)), "returned ", r, " for a key that ", existed ? "existed" : "was new", " at ", when());
+          it = m.find(s.key);
+          if (existed) {
+            it->size = size;
+            it->value = src_value;
+            m.refresh(it);
+          } else {
+            m.l.push_front(Entry{s.key, src_value, size});
+          }
+          break;
+#else
+          throw std::logic_error("C12: insert(const K&, const V&) with arguments inside the container is only exercised by the gated build");
+#endif
+        }
+        case ERASE_KSTORED: {
+          const K* sk = c.stored_key(key);
+          bool r = c.erase(sk ? *sk : key);
+          VCHECK(r == existed, "return:erase", "returned ", r, " for a key that ", existed ? "existed" : "did not exist", " at ", when());
+          if (existed) {
+            if (m.order_changed) st.nontrivial = true;
+            m.l.erase(it);
+          }
+          break;
+        }
+        case TOUCH_KSTORED: {
+          const K* sk = c.stored_key(key);
+          bool r = c.touch(sk ? *sk : key);
+          VCHECK(r == existed, "return:touch", "returned ", r, " for a key that ", existed ? "existed" : "did not exist", " at ", when());
+          if (existed) m.refresh(it);
+          break;
+        }
         case EMPTY:
           VCHECK(c.empty() == m.l.empty(), "empty", "empty() is ", c.empty(), " at ", when());
           break;
@@ -740,6 +849,202 @@ void replay_map(const uint64_t* ops, size_t n, Stats& st) {
   VCHECK(!heap.leaked(), "leak", heap.excess(), " heap block(s) allocated during the history are still live after the containers were destroyed and LeakSanitizer reports a leak, after: ", describe_history(ops, n, n));
   VCHECK(Conv<K>::outstanding() == 0, "key-copy-outlives-container", Conv<K>::outstanding(), " shared key object(s) still have an owner besides the key table after the containers were destroyed, after: ", describe_history(ops, n, n));
 }
+
+// ------------------------------------------------------------------ large populations (mode 2)
+
+// The hash table under the containers grows through rehashes as entries arrive and keeps its bucket array as they leave; the recency
+// list must be the model's order whatever the table does. A bulk history puts N (thousands of) distinct keys into one container and
+// then drains it with evict_object(): EVERY eviction (and, on the set, every peek() after it) is compared with the model, size() and
+// count() after every operation, the link walk at the phase boundaries and every 2048 operations. The model keeps an index next
+// to the list so that a history of 12,000 entries costs tens of milliseconds.
+template <typename Probe, typename K, typename V, bool IsMap>
+void replay_bulk(uint64_t N, uint64_t seed, uint64_t drain_to, Stats& st) {
+  if (N < 1 || N > 40000 || drain_to > N) throw std::logic_error("C12: bulk case outside the domain");
+  Conv<K>::prepare();
+  alloc_balance::Scope heap;
+  {
+    Probe c;
+    std::list<Entry> l; // front = most recently used
+    std::unordered_map<unsigned, std::list<Entry>::iterator> index;
+    size_t total = 0;
+    uint64_t step = 0;
+    unsigned next_key = 0;
+    const char* phase = "build-up";
+    const char* last = "construction"; // formatted only when a clause fails
+    unsigned last_key = 0;
+    auto where = [&]() { return cat(phase, " phase, operation #", step, " (", last, " key ", last_key, ") of the bulk history N=", N, " seed=", seed, " drain_to=", drain_to, " with ", l.size(), " live entries"); };
+    auto rnd = [&](uint64_t salt) { return mix(mix(seed, step), salt); };
+    auto check_counts = [&]() {
+      VCHECK(c.size() == total, "bulk:size-sum", "size() is ", c.size(), " but the entries' sizes sum to ", total, " after ", where());
+      VCHECK(c.count() == l.size(), "bulk:count", "count() is ", c.count(), " model ", l.size(), " after ", where());
+      if constexpr (!IsMap) {
+        if (!l.empty()) {
+          auto p = c.peek();
+          VCHECK(p.first == Conv<K>::key(l.back().key) && p.second == l.back().size, "bulk:peek-lru", "peek() is not the least recently used entry (model key ", l.back().key, " size ", l.back().size, ", got size ", p.second, ") after ", where());
+        }
+      } else {
+        VCHECK(c.empty() == l.empty(), "bulk:empty", "empty() is ", c.empty(), " after ", where());
+        if (!l.empty()) {
+          size_t sz = c.item_size(Conv<K>::key(l.back().key));
+          VCHECK(sz == l.back().size, "bulk:item_size", "item_size of the least recently used key is ", sz, " model ", l.back().size, " after ", where());
+        }
+      }
+      st.max_live = std::max<unsigned>(st.max_live, l.size());
+    };
+    auto walk = [&]() {
+      Model mm;
+      mm.l = l;
+      std::string w = where();
+      c.verify_links(mm, "A", Where{nullptr, 0, 0, w.c_str()});
+    };
+    auto insert_key = [&](unsigned k, uint64_t h) { // new or existing
+      K key = Conv<K>::key(k);
+      size_t size = h % 4;
+      auto f = index.find(k);
+      bool existed = f != index.end();
+      bool r, refreshes = true;
+      unsigned form = (h >> 8) % 3;
+      if constexpr (!IsMap) {
+        last = form == 0 ? "insert" : form == 1 ? "emplace" : "insert_default_size";
+        last_key = k;
+        if (form == 0) r = c.insert(key, size);
+        else if (form == 1) r = c.emplace(std::move(key), size);
+        else {
+          r = c.insert(key);
+          size = 0;
+        }
+      } else {
+        V value = Conv<V>::value(step);
+        last = form == 0 ? "insert" : form == 1 ? "emplace" : "insert_default_size";
+        last_key = k;
+        if (form == 0) r = c.insert(std::move(key), std::move(value), size);
+        else if (form == 1) {
+          r = c.emplace(std::move(key), std::move(value), size);
+          refreshes = false; // emplace on an existing key changes nothing
+        } else {
+          r = c.insert(std::move(key), std::move(value));
+          size = 1;
+        }
+      }
+      VCHECK(r == !existed, "bulk:return:insert", "returned ", r, " for a key that ", existed ? "existed" : "was new", " at ", where());
+      if (existed) {
+        if (refreshes) {
+          total = total - f->second->size + size;
+          f->second->size = size;
+          f->second->value = step;
+          l.splice(l.begin(), l, f->second);
+        }
+      } else {
+        l.push_front(Entry{k, step, size});
+        index[k] = l.begin();
+        total += size;
+      }
+    };
+    auto touch_key = [&](unsigned k) {
+      last = "touch";
+      last_key = k;
+      auto f = index.find(k);
+      bool r = c.touch(Conv<K>::key(k));
+      VCHECK(r == (f != index.end()), "bulk:return:touch", "returned ", r, " at ", where());
+      if (f != index.end()) l.splice(l.begin(), l, f->second);
+    };
+    auto erase_key = [&](unsigned k) {
+      last = "erase";
+      last_key = k;
+      auto f = index.find(k);
+      bool r = c.erase(Conv<K>::key(k));
+      VCHECK(r == (f != index.end()), "bulk:return:erase", "returned ", r, " at ", where());
+      if (f != index.end()) {
+        total -= f->second->size;
+        l.erase(f->second);
+        index.erase(f);
+      }
+    };
+    auto evict = [&]() {
+      last = "evict_object, model's least recently used";
+      const Entry lru = l.back();
+      last_key = lru.key;
+      auto r = c.evict_object();
+      if constexpr (!IsMap) {
+        VCHECK(r.first == Conv<K>::key(lru.key) && r.second == lru.size, "bulk:evict-lru", "evict_object() did not return the least recently used entry (model key ", lru.key, " size ", lru.size, ", got size ", r.second, ") at ", where());
+      } else {
+        VCHECK(r.key == Conv<K>::key(lru.key) && r.size == lru.size, "bulk:evict-lru", "evict_object() did not return the least recently used entry (model key ", lru.key, " size ", lru.size, ", got size ", r.size, ") at ", where());
+        VCHECK(r.value == Conv<V>::value(lru.value), "bulk:evict-value", "evict_object() did not return the last stored value of key ", lru.key, " at ", where());
+      }
+      total -= lru.size;
+      index.erase(lru.key);
+      l.pop_back();
+    };
+    auto side_operation = [&]() {
+      uint64_t h = rnd(0x51DE);
+      unsigned k = static_cast<unsigned>((h >> 16) % std::max(next_key, 1u));
+      switch (h % 8) {
+        case 0:
+        case 1:
+        case 2: touch_key(k); break;
+        case 3:
+        case 4: insert_key(k, h >> 24); break; // probably an existing key: a re-insert
+        case 5: insert_key(next_key++, h >> 24); break;
+        default: erase_key(k); break;
+      }
+    };
+    // build-up: N new keys; after every 8th a touch / re-insert, after every 32nd an erase of an earlier key
+    for (uint64_t i = 0; i < N; i++) {
+      step++;
+      insert_key(next_key++, rnd(1));
+      check_counts();
+      if (rnd(2) % 8 == 0) {
+        step++;
+        unsigned k = static_cast<unsigned>(rnd(3) % next_key);
+        if (rnd(4) % 4 == 0) erase_key(k);
+        else if (rnd(4) % 4 == 1) insert_key(k, rnd(5));
+        else touch_key(k);
+        check_counts();
+      }
+      if (step % 2048 == 0) walk();
+    }
+    walk();
+    // drain by eviction, every eviction compared; every 16th step something else happens too
+    phase = "drain";
+    while (l.size() > drain_to) {
+      step++;
+      evict();
+      check_counts();
+      if (step % 16 == 0) {
+        step++;
+        side_operation();
+        check_counts();
+      }
+      if (step % 2048 == 0) walk();
+    }
+    walk();
+    // tail: the container is used on after the drain
+    phase = "tail";
+    for (unsigned i = 0; i < 24; i++) {
+      step++;
+      side_operation();
+      check_counts();
+    }
+    walk();
+    phase = "final drain";
+    while (!l.empty()) {
+      step++;
+      evict();
+      check_counts();
+    }
+    walk();
+    bool threw = false;
+    try {
+      c.evict_object();
+    } catch (const std::out_of_range&) {
+      threw = true;
+    }
+    VCHECK(threw, "evict-empty", "evict_object() on the drained container did not throw out_of_range after a bulk history");
+  }
+  VCHECK(!heap.leaked(), "leak", heap.excess(), " heap block(s) allocated during the bulk history N=", N, " seed=", seed, " are still live after the container was destroyed and LeakSanitizer reports a leak");
+  st.nontrivial = true; // touches and re-inserts reorder thousands of entries before the evictions
+}
+typedef void (*BulkFn)(uint64_t, uint64_t, uint64_t, Stats&);
 
 // ------------------------------------------------------------------ exhaustive alphabets
 
@@ -836,6 +1141,7 @@ struct Variant {
   bool is_map;
   ReplayFn replay;
   unsigned core_alpha, ext_alpha; // indices into make_alphabets()
+  BulkFn bulk = nullptr; // large-population histories (mode 2); key types whose key number k may be any unsigned
 };
 
 inline bool leak_check() { return __lsan_do_recoverable_leak_check() != 0; }
@@ -921,10 +1227,27 @@ inline std::function<void(const Case&)> make_run(const Variant& v, bool gated) {
         v.replay(ops.data(), ops.size(), st);
         return false;
       });
+    } else if (mode == 2) {
+      if (!v.bulk || c.n.size() != 4) throw std::logic_error("C12: bulk histories are not available for this container type");
+      Stats st;
+      v.bulk(c.u(1), c.u(2), c.u(3), st);
+      ctx().nontrivial_case();
+      ctx().cls(cat(v.name, ":bulk:max-live-entries", st.max_live < 2358 ? "<2358" : st.max_live <= 5087 ? "=2358..5087" : st.max_live <= 10273 ? "=5088..10273" : ">10273"));
+      ctx().cls(cat(v.name, ":bulk:drain-to", c.u(3) == 0 ? "=0" : c.u(3) * 16 < c.u(1) ? "<N/16" : ">=N/16"));
     } else {
       throw std::logic_error("C12: unknown case mode");
     }
   };
+}
+
+// the bulk cases every run contains (quick: three populations; thorough: six)
+inline void enumerate_bulk(Enum& e, const Variant& v, uint64_t& block_index) {
+  if (!v.bulk) return;
+  static const uint64_t plan[6][3] = {{2600, 1, 40}, {5400, 2, 3}, {11000, 3, 500}, {2358, 4, 0}, {7000, 5, 400}, {16000, 6, 900}};
+  for (unsigned k = 0; k < (e.thorough() ? 6u : 3u) && !e.stop; k++) {
+    if (!e.mine(block_index++)) continue;
+    e.exec(Case(v.name).N(2).N(plan[k][0]).N(plan[k][1]).N(plan[k][2]));
+  }
 }
 
 // exhaustive: every history of length 1..L over the alphabet (both instances observed after every step, drained at the end)
@@ -976,6 +1299,12 @@ inline void enumerate_alphabet(Enum& e, const Variant& v, bool gated, unsigned a
 // ------------------------------------------------------------------ random histories
 
 inline Case gen_history(const Variant& v, bool gated) {
+  // one history in 600 is a large-population history (mode 2): 2,400..12,000 keys, drained to a small rest
+  if (v.bulk && vg::chance(1, 600)) {
+    uint64_t N = vg::chance(3, 4) ? 2400 + vg::below(3000) : 2400 + vg::below(9601);
+    uint64_t rest = vg::pick<uint64_t>({0, 1, 2, 17, N / 64, N / 32, N / 20, N / 10, N / 3});
+    return Case(v.name).N(2).N(N).N(vg::below(1000000)).N(rest);
+  }
   Case c(v.name);
   c.N(0);
   // history length: scaled by rapidcheck's size so that shrinking shortens it; a fifth of the cases are long
@@ -1024,7 +1353,13 @@ inline Case gen_history(const Variant& v, bool gated) {
     unsigned code, arg = size, flag = 0;
     unsigned r = vg::below(100);
     if (wide && vg::chance(1, 40)) r = 93; // CLEAR on either container
-    if (!v.is_map) {
+    if (vg::chance(1, 14)) {
+      // an argument that refers into the container itself
+      if (!v.is_map) code = vg::pick<unsigned>({INSERT_KSTORED, INSERT_KSTORED, ERASE_KSTORED, TOUCH_KSTORED});
+      else if (gated) code = vg::pick<unsigned>({INSERT_VSELF, INSERT_VSELF, INSERT_VOTHER, INSERT_VOTHER, INSERT_KSTORED, ERASE_KSTORED, TOUCH_KSTORED});
+      else code = vg::pick<unsigned>({ERASE_KSTORED, TOUCH_KSTORED});
+      if (code == INSERT_VOTHER) value = vg::below(nkeys);
+    } else if (!v.is_map) {
       if (r < 22) code = INSERT;
       else if (r < 32) code = EMPLACE;
       else if (r < 35) code = INSERT_DEF;
